@@ -436,7 +436,15 @@ def b_verify(rng, d, p, ks):
         fj = vscen.tamper_file(rng, fj, sub)
     layout_rel = "../root.layout"
     if cls == "malformed_layout":
-        _write(os.path.join(d, "root.layout"), _garbage(rng))
+        if isinstance(fj, dict) and "signed" in fj and rng.random() < 0.5:
+            # neither format: a validly signed traditional body next to a foreign DSSE "payload" member
+            hy = dict(fj, payload=rng.choice(["AAAA", "", "e30="]))
+            pt = rng.choice([None, "text/plain", "application/json", 7])
+            if pt is not None:
+                hy["payloadType"] = pt
+            _write(os.path.join(d, "root.layout"), json.dumps(hy))
+        else:
+            _write(os.path.join(d, "root.layout"), _garbage(rng))
     elif cls in ("missing_layout", "usage_nokey_missing_layout"):
         pass
     else:
@@ -836,7 +844,7 @@ def _break_key(rng, d, argv, kw, how):
     argv[argv.index(old)] = new
 
 
-COMMON_USAGE = ["usage_nokey", "usage_two_keys", "usage_no_name", "usage_unknown_opt", "usage_bad_keytype"]
+COMMON_USAGE = ["usage_nokey", "usage_two_keys", "usage_no_name", "usage_unknown_opt", "usage_bad_keytype", "usage_empty_key"]
 
 
 def _common_usage(rng, cls, argv, keyargv, ks, d):
@@ -854,6 +862,10 @@ def _common_usage(rng, cls, argv, keyargv, ks, d):
     if cls == "usage_unknown_opt":
         i = argv.index(keyargv[0])
         return argv[:i] + [rng.choice(["--bogus", "--sign-key=x"])] + argv[i:]
+    if cls == "usage_empty_key":
+        # what `--signing-key "$UNSET"` produces: the option is there, its value is empty
+        i = argv.index(keyargv[0])
+        return argv[:i] + [rng.choice(["--signing-key", "--key", "--gpg"]), ""] + argv[i + len(keyargv):]
     if cls == "usage_bad_keytype":
         i = argv.index(keyargv[0])
         return argv[:i] + ["--key-type", rng.choice(["dsa", "RSA"])] + argv[i:]
@@ -1236,7 +1248,11 @@ def b_match(rng, d, p, ks):
     intent = "ok" if not eff else "fail"
     usage = False
     if cls == "malformed_link":
-        _write(linkpath, _garbage(rng))
+        fjl = vscen.to_file(md)
+        if isinstance(fjl, dict) and "signed" in fjl and rng.random() < 0.5:
+            _write(linkpath, json.dumps(dict(fjl, payload="AAAA", payloadType=rng.choice(["text/plain", "x"]))))
+        else:
+            _write(linkpath, _garbage(rng))
         intent = "fail"
     elif cls == "missing_link":
         intent = "fail"
